@@ -182,7 +182,7 @@ fn dhw_letters() -> Vec<Letter> {
 
 pub fn run(ctx: &Ctx) -> i32 {
     let shared = Shared::new("C11", ctx);
-    flow_models(ctx, &shared, C11, FlowSpec { quick_depth: 2, thorough_depth: 3, extra: dhw_letters(), deep: true, seeded: true, t3: false, valuesets: false });
+    flow_models(ctx, &shared, C11, FlowSpec { quick_depth: 2, thorough_depth: 3, extra: dhw_letters(), deep: true, heavy_oracle: true, seeded: true, t3: false, valuesets: false });
     // values near the code's absolute thresholds (0.01 kWh, 1e-3): hundredths of kWh
     let mut small = crate::alpha::flow(2, &[0, 1, 3], crate::alpha::Rich::Base);
     small.extend(dhw_letters());
